@@ -156,6 +156,7 @@ def run_task(interp_factory, target, contract, name=None, args_builder=None, set
                 ctx.assume(interp.truth(interp.eval_spec(tx, entry)))
             for nm, tx in contract.defs:
                 ctx.assume(interp.truth(interp.eval_spec(tx, entry)))
+            ctx.base_len = len(ctx.pc)
             ctx.oblige("canary.requires_satisfiable", z3.BoolVal(False), fi.node, kind="canary")
             interp.old_state = interp.snapshot()
             entry_vals = dict(entry.vars)
@@ -229,6 +230,7 @@ def _call_body(interp, fi, ordered, kw):
     if fi.outer is not None:
         raise EngineError("verify nested functions through a closure builder")
     interp.bind_args(fi.node.args, ordered, kw, fr, fi.node, fi.qual)
+    interp.body_frame = fr
     interp.called.add(fi.fq)
     try:
         interp.exec_block(fi.node.body, fr)
